@@ -315,6 +315,18 @@ impl Inner {
 /// Is the thread asleep inside a futex wait?  Both conditions are needed: a thread that has been
 /// woken but has not been given a CPU yet (loaded machine) still shows the futex system call, but
 /// its state is R (runnable), not S (sleeping).
+/// CPU time (user + system) a thread of this process has used so far, in milliseconds
+fn thread_cpu_ms(tid: i32) -> u64 {
+    if tid == 0 {
+        return 0;
+    }
+    let stat = std::fs::read_to_string(format!("/proc/self/task/{}/stat", tid)).unwrap_or_default();
+    let f: Vec<&str> = stat.rsplit_once(") ").map(|x| x.1.split(' ').collect()).unwrap_or_default();
+    let ticks: u64 = f.get(11).and_then(|x| x.parse::<u64>().ok()).unwrap_or(0) + f.get(12).and_then(|x| x.parse::<u64>().ok()).unwrap_or(0);
+    let hz = unsafe { libc::sysconf(libc::_SC_CLK_TCK) }.max(1) as u64;
+    ticks * 1000 / hz
+}
+
 fn tid_in_futex(tid: i32) -> bool {
     let sys = match std::fs::read(format!("/proc/self/task/{}/syscall", tid)) {
         Ok(b) => b.starts_with(b"202 ") || b.starts_with(b"449 "), // futex, futex_waitv
@@ -345,6 +357,9 @@ pub struct Decision {
 pub struct ExecTrace {
     pub decisions: Vec<Decision>,
     pub deadlock: Option<String>,
+    /// a released worker burnt CPU for the whole watchdog window without reaching a yield point, finishing or
+    /// blocking: it spins (busy-waits) on something nobody will change, since every other worker is parked
+    pub spin: Option<String>,
     pub inconclusive: Option<String>,
     pub preemptions: u32,
     pub blocked_events: u32,
@@ -429,6 +444,8 @@ pub fn run_baton(job: Job, strategy: Strategy, watchdog_ms: u64) -> ExecTrace {
             let s = &g.slots[c];
             let mut polls = 0u32;
             let mut futex_seen = 0u32;
+            let released_at = std::time::Instant::now();
+            let cpu_at_release = thread_cpu_ms(s.tid.load(Ordering::Acquire));
             loop {
                 if s.finished.load(Ordering::Acquire) || s.arrived.load(Ordering::Acquire) != 0 {
                     break;
@@ -471,7 +488,17 @@ pub fn run_baton(job: Job, strategy: Strategy, watchdog_ms: u64) -> ExecTrace {
                     }
                 }
                 if start.elapsed().as_millis() as u64 > watchdog_ms {
-                    trace.inconclusive = Some(format!("watchdog: worker {} did not reach a point", c));
+                    // the clock alone decides nothing; but a thread that was ON THE CPU for most of the time since
+                    // it was released, while every other worker stands still at a yield point, waits actively for
+                    // something that cannot change (machine load makes a thread slower, it cannot make it use CPU)
+                    let tid = s.tid.load(Ordering::Acquire);
+                    let used_ms = thread_cpu_ms(tid).saturating_sub(cpu_at_release);
+                    let since_ms = released_at.elapsed().as_millis() as u64;
+                    if tid != 0 && since_ms >= 5_000 && used_ms * 3 >= since_ms * 2 {
+                        trace.spin = Some(format!("worker {} used {} ms of CPU in the {} ms since it was released after {} without reaching a yield point, finishing or blocking", c, used_ms, since_ms, point_name(s.last_point.load(Ordering::Acquire))));
+                    } else {
+                        trace.inconclusive = Some(format!("watchdog: worker {} did not reach a point", c));
+                    }
                     break 'outer;
                 }
             }
